@@ -541,6 +541,7 @@ func runC11(r *Run, verifDir string) {
 	r.Rule("C11.M12", "terminate closes the stream on every path (early exits only through a sound idempotence test); the dialer is given a context that keeps the caller's cancellation", 2)
 	terminateClosesStream(r, "C11.M12", "kmipclient")
 	c11DialerContext(r)
+	c11DialerClosures(r)
 	c11M6(r)
 }
 
@@ -1445,5 +1446,51 @@ func c11DialerContext(r *Run) {
 	}
 	if n == 0 {
 		r.Unk("C11.M12", "kmipclient/dialer-calls", token.NoPos, "no call of the dialer found")
+	}
+}
+
+// c11DialerClosures: a dialer — a function of the client package taking just a context and returning a connection —
+// connects with the context it is given, not with one captured when it was created: the dialer is kept for the life
+// of the client and called again for every re-dial, when the context of the original Dial call is long over.
+func c11DialerClosures(r *Run) {
+	p := r.P
+	n := 0
+	for _, fn := range pkgFuncs(p, "kmipclient") {
+		if fn.Parent() == nil || len(fn.Params) != 1 || typeName(fn.Params[0].Type()) != "Context" {
+			continue
+		}
+		res := fn.Signature.Results()
+		if res.Len() != 2 || typeName(res.At(0).Type()) != "Conn" {
+			continue
+		}
+		n++
+		key := fnKey(fn) + "/own-context"
+		bad := token.NoPos
+		allInstrs(fn, func(in ssa.Instruction) {
+			c := callOf(in)
+			if c == nil {
+				return
+			}
+			for _, a := range c.Args {
+				if typeName(a.Type()) != "Context" {
+					continue
+				}
+				v := unspill(a)
+				if ld, ok := v.(*ssa.UnOp); ok && ld.Op == token.MUL {
+					v = ld.X
+				}
+				if _, isFV := v.(*ssa.FreeVar); isFV {
+					bad = in.Pos()
+				}
+			}
+		})
+		if bad.IsValid() {
+			r.Bad("C11.M12", key, bad, "the dialer %s connects with a context captured when it was created instead of the one it is called with: once the context of the original Dial call is cancelled or expired (the usual defer cancel()), every re-dial fails at once although the server is reachable, so the client never recovers from a connection fault", fnKey(fn))
+		} else {
+			r.OK("C11.M12", key, fn.Pos(), "connects with its own context parameter")
+		}
+	}
+	if n == 0 {
+		r.Unk("C11.M12", "kmipclient/dialers", token.NoPos, "no dialer function found")
 	}
 }
